@@ -27,8 +27,11 @@ func (s *Stamp) Validate() error {
 
 // In checks if the stamp is in the list of stamps.
 func (s *Stamp) In(ss []*Stamp) bool {
+	if s == nil {
+		return false
+	}
 	for _, r := range ss {
-		if s.Provider == r.Provider {
+		if r != nil && s.Provider == r.Provider {
 			return true
 		}
 	}
@@ -47,6 +50,9 @@ func detectDuplicateStamps(list interface{}) error {
 	set := []*Stamp{}
 	// loop through and check order of Since value
 	for _, v := range values {
+		if v == nil {
+			continue
+		}
 		if v.In(set) {
 			return fmt.Errorf("duplicate stamp '%v'", v.Provider)
 		}
@@ -62,7 +68,7 @@ func AddStamp(in []*Stamp, s *Stamp) []*Stamp {
 		return []*Stamp{s}
 	}
 	for _, v := range in {
-		if v.Provider == s.Provider {
+		if v != nil && s != nil && v.Provider == s.Provider {
 			*v = *s // copy in place
 			return in
 		}
@@ -76,7 +82,7 @@ func GetStamp(in []*Stamp, provider cbc.Key) *Stamp {
 		return nil
 	}
 	for _, v := range in {
-		if v.Provider == provider {
+		if v != nil && v.Provider == provider {
 			return v
 		}
 	}
